@@ -159,7 +159,7 @@ func runC01(c *Ctx) {
 			st.ops = append(st.ops, opRec{Op: "Clean"})
 		default:
 			p := ref.Pick(r, live)
-			cut := r.Intn(len(p) + 1)
+			cut := gen.Cut(r, p)
 			s.PrefixClean(p[:cut])
 			removed = true
 			st.ops = append(st.ops, opRec{Op: "Prefix.Clean", Pattern: p[:cut]})
@@ -234,7 +234,7 @@ func init() {
 	Register(&Engine{
 		ID:       "C01",
 		Anchors:  []string{"node.go:matchChildren", "segment.go:Segment.Match", "tree.go:Handler", "router.go:serveContext"},
-		Cases:    func(t string) int { return map[string]int{"quick": 1500, "thorough": 120000}[t] },
+		Cases:    func(t string) int { return map[string]int{"quick": 6000, "thorough": 160000}[t] },
 		Run:      runC01,
 		Directed: c01Directed,
 		Rule: "case = Handle/Remove/Clean/Prefix.Clean history (8-40 ops, router or facade) over a hostile pool of 6-28 patterns, with bursts of 30-60 requests (paths instantiated from live and dead patterns with tricky values, mutated, raw bytes; all methods) after every 6th op; evaluation = one CallFunc observation checked by the conformance monitor; " +
